@@ -14,6 +14,10 @@ KNOWN_TEXT_NESTING = 'text-nesting-stack-overflow'
 KNOWN_FANOUT = 'reference-fan-out-exponential'
 KNOWN_F32_BOUND = 'f32-bound-debug-assert'
 KNOWN_TEXTPATH = 'textpath-huge-path'
+KNOWN_FONT = 'stroked-text-huge-font-size'
+KNOWN_IMAGE = 'image-huge-size'
+KNOWN_TORIGIN = 'transform-origin-sign'
+KNOWN_ARC = 'path-arc-huge'
 KNOWN_USE = 'use-expansion-loop'          # shared with C03: Err instead of a tree, not a totality violation
 
 # CPU-time budget of one Tree::from_data call: A + B * bytes (microseconds, thread CPU time measured inside the worker).
@@ -130,6 +134,60 @@ def textpath_huge(data):
                     return True
             except (ValueError, OverflowError):
                 return True
+    return False
+
+
+def _text(data):
+    try:
+        return data.decode('utf-8', 'replace')
+    except Exception:
+        return ''
+
+
+def _big(num, limit):
+    try:
+        return abs(float(num)) >= limit
+    except (ValueError, OverflowError):
+        return True
+
+
+def huge_font(data, options):
+    """text is present and a font size (attribute, style, CSS `font`, or the default font size option) is >= 1e25"""
+    t = _text(data)
+    if '<text' not in t:
+        return False
+    m = re.search(r'\bfs=([^;]+)', options or '')
+    if m and _big(m.group(1), 1e25):
+        return True
+    for m in re.finditer(r'font(?:-size)?\s*[=:]\s*"?([^";]*)', t):
+        if any(_big(n, 1e25) for n in G.NUM_RE.findall(m.group(1))):
+            return True
+    return False
+
+
+def huge_image(data):
+    t = _text(data)
+    for m in re.finditer(r'<image\b([^<>]*)>', t):
+        for a in re.finditer(r'\b(?:width|height)\s*=\s*"([^"]*)"', m.group(1)):
+            if any(_big(n, 2e9) for n in G.NUM_RE.findall(a.group(1))):
+                return True
+    return False
+
+
+def origin_sign(data):
+    t = _text(data)
+    for m in re.finditer(r'transform-origin\s*[=:]\s*"?([^";]*)', t):
+        if re.search(r'(?<![0-9eE.])[+-](?![0-9.])', m.group(1)):
+            return True
+    return False
+
+
+def arc_huge(data):
+    t = _text(data)
+    for m in re.finditer(r'\bd\s*=\s*"([^"]*)"', t):
+        d = m.group(1)
+        if re.search(r'[aA]', d) and any(_big(n, 1e20) for n in G.NUM_RE.findall(d)):
+            return True
     return False
 
 
@@ -305,6 +363,14 @@ def run(ctx):
         elif data is not None and ('time limit' in bad or 'CPU time' in bad or ('kurbo' in bad and 'shift left with overflow' in bad)) \
                 and textpath_huge(data):
             ctx.known_or_violation(KNOWN_TEXTPATH, text, replay)
+        elif data is not None and 'path_geometry.rs' in bad and 'tiny-skia-path' in bad and huge_font(data, o):
+            ctx.known_or_violation(KNOWN_FONT, text, replay)
+        elif data is not None and 'size.rs' in bad and 'tiny-skia-path' in bad and huge_image(data):
+            ctx.known_or_violation(KNOWN_IMAGE, text, replay)
+        elif data is not None and 'transform_origin.rs' in bad and origin_sign(data):
+            ctx.known_or_violation(KNOWN_TORIGIN, text, replay)
+        elif data is not None and ('time limit' in bad or 'CPU time' in bad or 'signal6' in bad) and arc_huge(data):
+            ctx.known_or_violation(KNOWN_ARC, text, replay)
         elif data is not None and prof == 'debug' and 'val.is_finite()' in bad and 'parser/mod.rs' in bad and f32_bound_class(data):
             ctx.known_or_violation(KNOWN_F32_BOUND, text, replay)
         else:
